@@ -202,6 +202,8 @@ def delim2(ctx: Ctx, chk) -> None:
             chk.ok(rule, key, "line split unmodified", ctx.loc(pre, s.call))
         elif rtxt == f"{param}.rstrip()":
             chk.ok(rule, key, "only trailing whitespace (incl. the terminator) removed before the split", ctx.loc(pre, s.call))
+        elif _strips_only_line_end(rtxt, param):
+            chk.ok(rule, key, "only trailing line-end / whitespace characters (the terminator among them) removed before the split", ctx.loc(pre, s.call))
         else:
             chk.refute(rule, key, f"the line is preprocessed by `{norm(recv)}` before the split: anything but rstrip() alters fields the property keeps (leading blanks, inner characters)", ctx.loc(pre, s.call))
     # no per-field stripping of the zipped values
@@ -211,6 +213,88 @@ def delim2(ctx: Ctx, chk) -> None:
         chk.refute(rule, fkey(pre, strips[0]) + "::field-transform", f"pre_load transforms field text with `{norm(strips[0])}`", ctx.loc(pre, strips[0]))
     else:
         chk.ok(rule, f"{pre.fq}::no-field-transform", "no strip/lower/replace on field text", ctx.loc(pre, pre.node))
+
+
+def _strips_only_line_end(rtxt: str, param: str) -> bool:
+    """`<param>.rstrip(<constant of whitespace characters that include the newline>)`: the terminator the encoder adds is
+    removed and nothing but trailing whitespace can go with it (payloads are free of trailing whitespace)."""
+    try:
+        e = ast.parse(rtxt, mode="eval").body
+    except SyntaxError:
+        return False
+    if not (isinstance(e, ast.Call) and isinstance(e.func, ast.Attribute) and e.func.attr == "rstrip" and norm(e.func.value) == param and len(e.args) == 1 and not e.keywords):
+        return False
+    a = e.args[0]
+    return isinstance(a, ast.Constant) and isinstance(a.value, str) and "\n" in a.value and all(ch.isspace() for ch in a.value)
+
+
+_ACCESS_HOOKS = ("__setattr__", "__getattribute__", "__getattr__")
+
+
+def _pure_forward(f) -> bool:
+    """`def __setattr__(self, name, value): super().__setattr__(name, value)` (optionally after a docstring)."""
+    body = [s for s in f.node.body if not (isinstance(s, ast.Expr) and isinstance(s.value, ast.Constant))]
+    if len(body) != 1:
+        return False
+    s = body[0]
+    v = s.value if isinstance(s, (ast.Expr, ast.Return)) else None
+    if not isinstance(v, ast.Call) or not isinstance(v.func, ast.Attribute) or v.func.attr != f.name or v.keywords:
+        return False
+    recv = v.func.value
+    if not (isinstance(recv, ast.Call) and norm(recv.func) == "super") and norm(recv) != "object":
+        return False
+    args = [norm(a) for a in v.args]
+    params = f.positional_params
+    return args in (params[1:], params)
+
+
+def _plain_attributes(ctx: Ctx, chk, rule: str, msg, fields) -> None:
+    methods = msg.mro_methods()
+    for hook in _ACCESS_HOOKS:
+        chk.instance(rule)
+        key = f"{msg.fq}::{hook}"
+        fs = methods.get(hook, [])
+        bad = [f for f in fs if not _pure_forward(f)]
+        if bad:
+            chk.refute(rule, key, f"Message defines {hook}: a value stored in / read from a field goes through `{bad[0].qualname}` and is not the value that was given (e.g. the payload stripped or re-typed on every assignment) - a constructed message and the message decoded from its own line then differ", ctx.loc(bad[0], bad[0].node))
+        else:
+            chk.ok(rule, key, "no attribute-access hook on Message" if not fs else "a pure forward to the default", f"{msg.module.relpath}:{msg.node.lineno}", sample=False)
+    for p in fields:
+        chk.instance(rule)
+        key = f"{msg.fq}::{p}::descriptor"
+        fs = methods.get(p, [])
+        cls_attr = [c for c in msg.repo_mro() if p in c.attrs and c.attrs[p] is not None]
+        if not fs and not cls_attr:
+            chk.ok(rule, key, "a plain instance attribute", f"{msg.module.relpath}:{msg.node.lineno}", sample=False)
+            continue
+        if cls_attr:
+            c = cls_attr[0]
+            v = c.attrs[p]
+            if isinstance(v, ast.Call) and norm(v.func).split(".")[-1] != "field":
+                chk.refute(rule, key, f"field {p} is a class-level `{norm(v)[:50]}` (a descriptor): stores and reads of the field go through it", f"{c.module.relpath}:{v.lineno}")
+            else:
+                chk.ok(rule, key, "a class-level default value, not a descriptor", f"{c.module.relpath}:{v.lineno}", sample=False)
+            continue
+        # property: getter returns the private attribute the setter stores the given value (or int(value)) in
+        bad_f = None
+        for f in fs:
+            decos = [norm(d) for d in f.node.decorator_list]
+            params = f.positional_params
+            if any(d.endswith(".setter") for d in decos):
+                st = [s for s in f.node.body if not (isinstance(s, ast.Expr) and isinstance(s.value, ast.Constant))]
+                ok = len(st) == 1 and isinstance(st[0], ast.Assign) and len(params) == 2 and norm(st[0].value) in ((params[1], f"int({params[1]})") if p in INT_FIELDS else (params[1],))
+            elif "property" in decos:
+                st = [s for s in f.node.body if not (isinstance(s, ast.Expr) and isinstance(s.value, ast.Constant))]
+                ok = len(st) == 1 and isinstance(st[0], ast.Return) and isinstance(st[0].value, ast.Attribute) and norm(st[0].value.value) == params[0]
+            else:
+                ok = False
+            if not ok:
+                bad_f = f
+                break
+        if bad_f is not None:
+            chk.refute(rule, key, f"field {p} is served by `{bad_f.qualname}`, which does not simply store / return the given value", ctx.loc(bad_f, bad_f.node))
+        else:
+            chk.ok(rule, key, "a property that stores and returns the value unchanged", ctx.loc(fs[0], fs[0].node), sample=False)
 
 
 def norm1(ctx: Ctx, chk, rule: str) -> None:
@@ -246,6 +330,8 @@ def norm1(ctx: Ctx, chk, rule: str) -> None:
             chk.refute(rule, key, "payload is converted with int()", ctx.loc(init, v))
             continue
         chk.ok(rule, key, f"self.{p} = {'int(' + p + ')' if via_int else p}", ctx.loc(init, v), sample=p in ("node_id", "payload"))
+    # attribute access on a Message is plain: what __init__ (or anyone) stores in a field is what is read back
+    _plain_attributes(ctx, chk, rule, msg, init.positional_params[1:])
     # post_load
     schema, hooks = schema_hooks(ctx)
     pl = hooks["post_load"]
